@@ -5,15 +5,47 @@ Import ListNotations.
 Local Open Scope N_scope.
 
 Theorem C35_pull_complete :
-  forall u sink heads need batches, missing u sink heads = Some need -> incl need (concat batches) ->
-  forall x, reach u heads x -> has (concat batches ++ sink) x = true.
+  forall u sink heads need, sink_closed u sink -> pull_need u sink heads = Some need ->
+  forall x, reach u heads x -> has (need ++ sink) x = true.
 Proof. exact pull_complete. Qed.
 Print Assumptions C35_pull_complete.
 
+Theorem C35_pull_complete_batches :
+  forall u sink heads need batches, sink_closed u sink -> pull_need u sink heads = Some need ->
+  incl need (concat batches) -> forall x, reach u heads x -> has (concat batches ++ sink) x = true.
+Proof. exact pull_complete_batches. Qed.
+Print Assumptions C35_pull_complete_batches.
+
+Theorem C35_pull_need_minimal :
+  forall u sink heads need, pull_need u sink heads = Some need ->
+  forall x, In x need -> reach u heads x /\ has sink x = false.
+Proof. exact pull_need_minimal. Qed.
+Print Assumptions C35_pull_need_minimal.
+
+Theorem C35_pruning_needs_closed_sink :
+  let u := [(1, [2]); (2, [])] in
+  pull_need u [1] [1] = Some [] /\ reach u [1] 2 /\ has ([] ++ [1]) 2 = false.
+Proof. exact pruning_needs_closed_sink. Qed.
+Print Assumptions C35_pruning_needs_closed_sink.
+
+Theorem C35_pull_add_accepted :
+  forall u sink heads need, sink_closed u sink -> pull_need u sink heads = Some need -> add_ok u sink need = true.
+Proof. exact pull_add_accepted. Qed.
+Print Assumptions C35_pull_add_accepted.
+
 Theorem C35_ref_after_data :
-  forall u ts d, ref_backed u d -> forall k, ref_backed u (transfer u d (firstn k ts)).
+  forall u ts d, sink_closed u (r_store d) -> refs_present d ->
+  forall k, ref_backed u (transfer u d (firstn k ts)) /\ sink_closed u (r_store (transfer u d (firstn k ts))).
 Proof. exact ref_after_data. Qed.
 Print Assumptions C35_ref_after_data.
+
+Theorem C35_push_complete :
+  forall u d n new force, sink_closed u (r_store d) -> refs_present d ->
+  let d' := push u d n new force in
+  ref_backed u d' /\
+  (get_ref (r_refs d') n = Some new -> forall x, reach u [new] x -> has (r_store d') x = true).
+Proof. exact push_complete. Qed.
+Print Assumptions C35_push_complete.
 
 Theorem C35_push_cas :
   forall u d n old new1 new2 f1 f2,
@@ -27,3 +59,8 @@ Theorem C35_ff_only_keeps_history :
   forall x, reach u [o] x -> reach u [new] x.
 Proof. exact ff_only_keeps_history. Qed.
 Print Assumptions C35_ff_only_keeps_history.
+
+Theorem C35_data_complete_spec :
+  forall u s a, data_complete u s a = true <-> (forall x, reach u [a] x -> has s x = true).
+Proof. exact data_complete_spec. Qed.
+Print Assumptions C35_data_complete_spec.
